@@ -10,6 +10,8 @@ CONSTANTS
   MaxLines = 26
   Kinds = {"isub", "ssub", "rsub", "ofix", "bfix", "rfix"}
   TokKinds = {"one", "ld8", "jp", "call", "ldhl", "lda", "jr", "djnz", "defw", "defb", "defm", "defs"}
+  DirTokKinds = {"one", "ld8", "jp", "call", "ldhl", "lda", "jr", "djnz", "defw", "defb", "defm", "defs"}
+  DirIns = 99
   Classes <- SimClasses
   FlagSets <- SimFlags
   TargetOffs = {0, 1, 2, 3, 4, 5, 6, 8, 4096}
